@@ -204,5 +204,10 @@ func ekSeeds() [][]byte {
 			out = append(out, s[4:])
 		}
 	}
+	for _, s := range lnSeeds() { // packets that start at the EAPOL header
+		if len(s) >= 99 && s[0] >= 1 && s[0] <= 3 && s[1] == 3 && 4+(int(s[2])<<8|int(s[3])) == len(s) {
+			out = append(out, s[4:])
+		}
+	}
 	return out
 }
